@@ -564,6 +564,22 @@ fn main() {
         sig.constness = None;
         let rw = ty::TyRw { u: &u, in_unit_ty: false };
         rw.rewrite_generics(&mut sig.generics);
+        if !fs.dropgenerics.is_empty() {
+            // `dropgeneric T` of this function: the parameter of type T was retyped to a concrete type
+            let keep: Vec<GenericParam> = sig.generics.params.iter().filter(|p| !matches!(p, GenericParam::Type(tp) if fs.dropgenerics.contains(&tp.ident.to_string()))).cloned().collect();
+            sig.generics.params = keep.into_iter().collect();
+            if sig.generics.params.is_empty() {
+                sig.generics.lt_token = None;
+                sig.generics.gt_token = None;
+            }
+            if let Some(wc) = &mut sig.generics.where_clause {
+                let preds: Vec<WherePredicate> = wc.predicates.iter().filter(|p| !fs.dropgenerics.iter().any(|g| p.to_token_stream().to_string().split(|c: char| !(c.is_alphanumeric() || c == '_')).any(|w| w == g))).cloned().collect();
+                wc.predicates = preds.into_iter().collect();
+            }
+            if sig.generics.where_clause.as_ref().map(|w| w.predicates.is_empty()).unwrap_or(false) {
+                sig.generics.where_clause = None;
+            }
+        }
         let mut prologue: Vec<Stmt> = vec![];
         let mut pre_raii: Vec<Raii> = vec![];
         let mut new_inputs: Vec<FnArg> = vec![];
